@@ -85,8 +85,18 @@ typedef struct chacha_context_str_s {
 
 #define CHACHA_PTR_IS_ALIGNED4(p)	(0 == (((size_t)p) & 3))
 #define CHACHA_PTR_IS_ALIGNED8(p)	(0 == (((size_t)p) & 7))
-#define CHACHA_PTR_8TO32(ptr)		((uint32_t*)(void*)(size_t)(ptr))
-#define CHACHA_PTR_8TO64(ptr)		((uint64_t*)(void*)(size_t)(ptr))
+/* Word access to byte buffers and 64 bit access to the 32 bit state arrays:
+ * must be done via may_alias types, otherwise it is undefined (strict aliasing)
+ * and gcc -O2 reorders the 64 bit copies against the 32 bit round function. */
+#if defined(__GNUC__) || defined(__clang__)
+typedef uint32_t __attribute__((__may_alias__)) chacha_u32_alias_t;
+typedef uint64_t __attribute__((__may_alias__)) chacha_u64_alias_t;
+#else
+typedef uint32_t chacha_u32_alias_t;
+typedef uint64_t chacha_u64_alias_t;
+#endif
+#define CHACHA_PTR_8TO32(ptr)		((chacha_u32_alias_t*)(void*)(size_t)(ptr))
+#define CHACHA_PTR_8TO64(ptr)		((chacha_u64_alias_t*)(void*)(size_t)(ptr))
 
 /* interpret four 8 bit unsigned integers as a 32 bit unsigned integer in little endian */
 static inline uint32_t
